@@ -184,6 +184,28 @@ def r31(ctx, repo, upd):
         ctx.ob("R3.1", last, "the snapshot is taken as the last step"
                if last else "the snapshot is not the last statement of "
                "update()", node=s, label="snapshot last", nontrivial=False)
+    # the settings may only be remembered on a path that recomputed the box
+    # filters from the diff (a short-cut that snapshots without recomputing
+    # makes the changes made meanwhile invisible for ever)
+    from ..cfg import CFG
+    ucfg = CFG(upd)
+    box_loops = [n for n in walk(upd) if isinstance(n, ast.For)
+                 and "feat2filter" in txt(n.iter)]
+    if not box_loops:
+        raise AnalysisError("Filter.update: box recomputation loop lost")
+    heads = set()
+    for bl in box_loops:
+        heads |= set(ucfg.ids_of(bl))
+    for sn in snaps:
+        for nid in ucfg.ids_of(sn):
+            ok = ucfg.always_before(nid, lambda n_: n_.id in heads)
+            ctx.ob("R3.1", ok,
+                   "the settings are remembered only after the box filters "
+                   "were recomputed from the diff" if ok else
+                   "a path remembers the settings without recomputing the "
+                   "box filters: edits applied on that path are never seen "
+                   "by a later diff", node=sn,
+                   label="snapshot after recomputation")
     # feat2filter derives from newkeys with the min/max suffix rule
     suffix = [n for n in walk(upd) if isinstance(n, ast.Call)
               and last_attr(n) == "endswith" and n.args
@@ -446,6 +468,31 @@ def r33(ctx, repo, upd):
                f"(can only shrink over time)",
                node=reset or (acc[0] if acc else upd),
                label=f"accumulator reset {kind}")
+    # ... on *every* path of update(): a reset that only runs when some
+    # setting changed turns the accumulator into a cache with an incomplete
+    # key (new features, new data are never scanned)
+    from ..cfg import CFG
+    ucfg = CFG(upd)
+    for kind in ("box", "invalid", "polygon"):
+        name = inv[kind]
+        rs = [n for n in walk(upd) if isinstance(n, ast.Assign) and isinstance(
+            n.targets[0], ast.Subscript) and txt(
+            n.targets[0].value) == name and isinstance(
+            n.value, ast.Constant) and n.value.value is True]
+        if not rs:
+            continue
+        ids = set()
+        for r_ in rs:
+            ids |= set(ucfg.ids_of(r_))
+        ok = ucfg.must_pass(lambda n_: n_.id in ids,
+                            avoid_edge=lambda s_, l_, d_: l_ == "x")
+        ctx.ob("R3.3", ok,
+               f"`{kind}` is rebuilt on every normal path through update()"
+               if ok else
+               f"`{kind}` is only rebuilt under a condition (e.g. when a "
+               f"setting changed): data or features that appear later are "
+               f"never evaluated", node=rs[0],
+               label=f"accumulator reset unconditional {kind}")
     # box accumulates every per-feature filter; polygon every cached polygon
     for kind, store in (("box", "_box_filters"), ("polygon", "_poly_filters")):
         name = inv[kind]
@@ -794,6 +841,26 @@ def run(ctx):
 
 
 MUTANTS = [
+    ("invalid filter cached on the setting (seeded C03_5)", FILT,
+     ("        arr_invalid[:] = True\n"
+      "        if cfg_cur[\"remove invalid events\"]:\n"
+      "            for feat in self.features:\n"
+      "                data = rtdc_ds[feat]\n"
+      "                invalid = np.isinf(data) | np.isnan(data)\n"
+      "                arr_invalid &= ~invalid\n",
+      "        if \"remove invalid events\" in newkeys:\n"
+      "            arr_invalid[:] = True\n"
+      "            if cfg_cur[\"remove invalid events\"]:\n"
+      "                for feat in self.features:\n"
+      "                    data = rtdc_ds[feat]\n"
+      "                    invalid = np.isinf(data) | np.isnan(data)\n"
+      "                    arr_invalid &= ~invalid\n"), "R3.3"),
+    ("short-cut snapshots without recomputing (seeded C03_6)", FILT,
+     ("        # 1. Invalid filters\n",
+      "        if not cfg_cur[\"enable filters\"] and not force:\n"
+      "            self._get_rw_array(\"all\")[:] = True\n"
+      "            self._old_config = rtdc_ds.config.copy()[\"filtering\"]\n"
+      "            return\n\n        # 1. Invalid filters\n"), "R3.1"),
     ("diff over current keys only (F03 returns)", FILT,
      ("        for skey in list(cfg_cur.keys()) + removed:",
       "        for skey in list(cfg_cur.keys()):"), "R3.1"),
